@@ -284,4 +284,11 @@ theorem validators_code_error_class (k : SolverKind) (c : SolverCfg) (e : CfgErr
     (c.problemOk = false → e = .typeError) ∧ (c.problemOk = true → e = .valueError) := by
   rw [validators_code_eq_model] at h; exact validateSolver_error_class k c e h
 
+/-- **tie by translation, problem configurations**: the four problem `__post_init__` validators as written in /repo are the
+    model's, so the `validate*_iff` theorems above are statements about the code -/
+theorem problem_validators_code_eq_model :
+    (∀ c, Gen.pvalidate_Forest c = validateForest c) ∧ (∀ c, Gen.pvalidate_DeMoor c = validateDeMoor c) ∧
+    (∀ c, Gen.pvalidate_Hendrix c = validateHendrix c) ∧ (∀ c, Gen.pvalidate_Mirjalili c = validateMirjalili c) :=
+  ⟨GenTie.pvalidate_forest_eq, GenTie.pvalidate_demoor_eq, GenTie.pvalidate_hendrix_eq, GenTie.pvalidate_mirjalili_eq⟩
+
 end MdpaxV.C20
